@@ -520,6 +520,7 @@ type Contract struct {
 	Ensures   []Clause
 	Modifies  []Expr // location expressions; nil + ModNothing
 	ModSet    bool   // a modifies clause was given
+	External  bool   // `extern`: assumed contract of a function outside /repo
 	Pure      bool   // no heap writes and no allocation
 	Floats    FloatMode
 	FloatsSet bool
@@ -629,6 +630,7 @@ func (cf *ContractFile) parse(src, file string) error {
 			curLemma = nil
 			if kw == "extern" {
 				c.Trusted = true
+				c.External = true
 				cf.Externs[c.Key] = c
 			} else {
 				if _, dup := cf.Contracts[c.Key]; dup {
